@@ -8,7 +8,7 @@ from harness.runner import Clause
 from oracle import geom
 
 RULE = ("Generated: closed oriented meshes with convex faces - polycubes grown from templates (L, U, S, ring of genus 1, "
-        "2x2x2 minus one, ...) with anisotropic stretch, faces_are_convex given as True / left to its default / False, extrusions of non-convex simple polygons with ear-clipped caps, "
+        "2x2x2 minus one, ...) with anisotropic stretch, faces_are_convex given as True / left to its default / False, faces as lists or (un)signed index arrays, extrusions of non-convex simple polygons with ear-clipped caps, "
         "radially perturbed star meshes, convex hulls given as meshes - x rigid placement up to 10 diameters x scale "
         "10^+-1. Oracle: signed-tetrahedron moments over the harness's own fan triangulation, cross-checked per case "
         "against the voxel closed form. Non-trivial: not star-shaped about its centroid, or genus 1, or offset >= 1 "
@@ -21,7 +21,8 @@ K = 1e4
 @st.composite
 def _case(draw, max_n=24, anchored=False, decades=1.0):
     out = {"mesh": draw(zoo.mesh3d(max_n=max_n)), "place": draw(zoo.placement(max_offset=10.0, scale_decades=decades)),
-           "shift": draw(st.integers(0, 7)), "flag": draw(st.sampled_from(["convex", "convex", "default", "not_assumed"]))}
+           "shift": draw(st.integers(0, 7)), "flag": draw(st.sampled_from(["convex", "convex", "default", "not_assumed"])),
+           "fdtype": draw(st.sampled_from(["list", "list", "int64", "int32", "uint8", "uint32", "uint64"]))}
     if anchored:
         out["anchor"] = draw(st.sampled_from(zoo.ANCHORS))
         out["anchor_k"] = draw(st.integers(0, 40))
@@ -86,7 +87,10 @@ def _run(case, rec):
     flag = case.get("flag", "convex")
     args = {"convex": (True,), "default": (), "not_assumed": (False,)}[flag]
     rec.label("flag:" + flag)
-    poly = call(S.Polyhedron, V.copy(), [list(f) for f in F], *args)
+    fd = case.get("fdtype", "list")
+    faces_arg = [list(f) for f in F] if fd == "list" else [np.array(f, dtype=getattr(np, fd)) for f in F]
+    rec.label("faces_as:" + fd)
+    poly = call(S.Polyhedron, V.copy(), faces_arg, *args)
     if isinstance(poly, Raised):
         rec.fail("construct", dict(sig, type=poly.type), msg=poly.msg)
         return
